@@ -13,6 +13,8 @@ import GomlVerif.Driver.C16
 import GomlVerif.Driver.SrcRun
 import GomlVerif.Driver.C18
 import GomlVerif.Driver.C14
+import GomlVerif.Driver.C07
+import GomlVerif.Driver.C03
 import GomlVerif.Driver.C09
 
 def main (args : List String) : IO UInt32 := do
@@ -34,5 +36,7 @@ def main (args : List String) : IO UInt32 := do
   | ["srcsem"] => Goml.Driver.SrcRun.main; return 0
   | ["c18"] => Goml.Driver.C18.main; return 0
   | ["c14"] => Goml.Driver.C14.main; return 0
+  | ["c07"] => Goml.Driver.C07.main; return 0
+  | ["c03"] => Goml.Driver.C03.main; return 0
   | ["c09"] => Goml.Driver.C09.main; return 0
   | _ => IO.eprintln "usage: gomlmodel <c05|…> < lines"; return 2
